@@ -11,7 +11,11 @@ import (
 	"sort"
 	"strings"
 
+	"github.com/Oneledger/protocol/action"
 	aevid "github.com/Oneledger/protocol/action/evidence"
+	agov "github.com/Oneledger/protocol/action/governance"
+	"github.com/Oneledger/protocol/data/balance"
+	"github.com/Oneledger/protocol/data/governance"
 
 	"olverif/harness/rng"
 )
@@ -231,6 +235,7 @@ func runOneHistory(opt TwinOptions, c int, r *rng.R, res *Result, hl *HistoryLog
 	}
 	var reps []*Replica
 	defer func() {
+		_ = 0
 		for _, rp := range reps {
 			rp.Close()
 		}
@@ -241,6 +246,7 @@ func runOneHistory(opt TwinOptions, c int, r *rng.R, res *Result, hl *HistoryLog
 			return false, err
 		}
 		reps = append(reps, rp)
+		rp.KeepPending = true
 		rp.InitChain()
 		if opt.Mode == ModeTwin {
 			// roles differ: A is a witness node when the genesis has witnesses, C never
@@ -253,6 +259,10 @@ func runOneHistory(opt TwinOptions, c int, r *rng.R, res *Result, hl *HistoryLog
 	var script func(g *Gen, h int64) []GenTx
 	if doubleVerdict {
 		script = doubleVerdictScript
+	}
+	feeScript := opt.Mode == ModeInject && c%4 == 1
+	if feeScript {
+		script = govFeeScript
 	}
 	okTx, hook, failedWithOk, injectedOK, midCrash := 0, 0, 0, 0, 0
 	var future [][]byte
@@ -347,6 +357,10 @@ func runOneHistory(opt TwinOptions, c int, r *rng.R, res *Result, hl *HistoryLog
 							tx = future[r.Intn(len(future))]
 						}
 					}
+					if tx == nil && feeScript && b.Height >= 5 && b.Height <= 7 {
+						a := g.acct()
+						tx = g.mk("PROPOSAL_FINALIZE", "script", &agov.FinalizeProposal{ProposalID: pid(fmt.Sprintf("feescript-%d", g.W.P.Seed)), ValidatorAddress: a.Addr}, a).Bytes
+					}
 					if tx == nil && r.Intn(3) == 0 {
 						tx = g.FinalizeAny().Bytes
 					}
@@ -375,6 +389,7 @@ func runOneHistory(opt TwinOptions, c int, r *rng.R, res *Result, hl *HistoryLog
 			eb := B.EndBlock(b.Height)
 			rb.Updates = eb.ValidatorUpdates
 			inj("after-end")
+			pb := pendingOf(B.App.VerifDeliverState())
 			rb.AppHash = B.Commit()
 			B.IndexBlock(b, rb)
 			inj("after-commit")
@@ -383,7 +398,7 @@ func runOneHistory(opt TwinOptions, c int, r *rng.R, res *Result, hl *HistoryLog
 				return true, nil
 			}
 			if rb.Transcript() != ra.Transcript() {
-				res.Hit("checktx-changed-consensus", c, fmt.Sprintf("block %d: %s | plain: %.400s | with CheckTx: %.400s", b.Height, diffDumps(A.Dump(), B.Dump()), ra.Transcript(), rb.Transcript()), hl.Lines)
+				res.Hit("checktx-changed-consensus", c, fmt.Sprintf("block %d: %s | write order: %s | plain: %.400s | with CheckTx: %.400s", b.Height, diffDumps(A.Dump(), B.Dump()), diffPending(A.LastPending, pb), ra.Transcript(), rb.Transcript()), hl.Lines)
 				return true, nil
 			}
 		case ModeCrash:
@@ -509,4 +524,46 @@ func doubleVerdictScript(g *Gen, h int64) []GenTx {
 		}
 	}
 	return out
+}
+
+// govFeeScript drives a configuration proposal that raises the minimal fee to 10^18 through
+// create (block 2), funding to the goal (block 3) and a yes vote of every staked validator
+// (block 4); it is finalised by the internal transaction of block 5 or 6. PROPOSAL_FINALIZE
+// offered to CheckTx around those blocks runs the same finalisation on the check state.
+func govFeeScript(g *Gen, h int64) []GenTx {
+	id := pid(fmt.Sprintf("feescript-%d", g.W.P.Seed))
+	a := g.W.Accts[0]
+	switch h {
+	case 2:
+		return []GenTx{g.mk("PROPOSAL_CREATE", "script", &agov.CreateProposal{ProposalID: id, ProposalType: governance.ProposalTypeConfigUpdate, Headline: "h", Description: "d",
+			Proposer: a.Addr, InitialFunding: action.Amount{Currency: "OLT", Value: *balance.NewAmount(1000000000)}, FundingDeadline: h + g.W.P.FundingDeadline,
+			FundingGoal: balance.NewAmount(10000000000), VotingDeadline: h + g.W.P.FundingDeadline + g.W.P.VotingDeadline, PassPercentage: 51, ConfigUpdate: "feeOption.minFeeDecimal:18"}, a)}
+	case 3:
+		return []GenTx{g.mk("PROPOSAL_FUND", "script", &agov.FundProposal{ProposalId: id, FunderAddress: a.Addr, FundValue: action.Amount{Currency: "OLT", Value: *balance.NewAmount(9000000000)}}, a)}
+	case 4:
+		var out []GenTx
+		for i, v := range g.W.Vals {
+			if g.Staked[i] && v.Genesis {
+				out = append(out, g.mk("PROPOSAL_VOTE", "script", &agov.VoteProposal{ProposalID: id, Address: v.Owner.Addr, ValidatorAddress: v.Key.Addr, Opinion: governance.OPIN_POSITIVE}, v.Owner, v.Key))
+			}
+		}
+		return out
+	}
+	return nil
+}
+
+func diffPending(a, b []kvp) string {
+	n := len(a)
+	if len(b) < n {
+		n = len(b)
+	}
+	for i := 0; i < n; i++ {
+		if string(a[i].k) != string(b[i].k) || string(a[i].v) != string(b[i].v) {
+			return fmt.Sprintf("first difference at write %d of %d/%d: plain %q=%.60q, other %q=%.60q", i, len(a), len(b), a[i].k, a[i].v, b[i].k, b[i].v)
+		}
+	}
+	if len(a) != len(b) {
+		return fmt.Sprintf("one list is a prefix of the other (%d vs %d writes)", len(a), len(b))
+	}
+	return "identical ordered writes"
 }
